@@ -345,6 +345,15 @@ def base_local(body, op, depth=6):
         if body.locals[l]["k"] in ("arg", "var"):
             return l
         ds = body.defs().get(l, [])
+        if len(ds) == 1 and ds[0][0] == "call" and rx(r"Deref>::deref$|DerefMut>::deref_mut$|AsRef<.*>>::as_ref$|AsRef::as_ref$|Borrow<.*>>::borrow$|PathBuf::as_path$|String::as_str$").search(cname(ds[0][2])) and ds[0][2]["args"]:
+            # `&*x`, `x.as_ref()`: still the same object
+            a0 = ds[0][2]["args"][0]
+            p0 = a0.get("copy") or a0.get("move")
+            if not p0:
+                return l
+            l = p0[0]
+            depth -= 1
+            continue
         if len(ds) != 1 or ds[0][0] != "=":
             return l
         rv = ds[0][3]
